@@ -55,6 +55,12 @@ def check_fold(ctx, repo: Repo, pid: str):
         ctx.inconclusive("TRUTH", f"{tag}.truth", "no antipode lookup (index-array producing call) found in the fold", where)
     else:
         ctx.ok("TRUTH", f"{tag}.truth", f"{ndefs} index-array value(s); none used as a truth value", where)
+    from .truth import index_truthiness_in_comprehensions
+    for node, name, producer, cx in index_truthiness_in_comprehensions(repo, fi):
+        ctx.instance("TRUTH")
+        ctx.violate("TRUTH", f"{tag}.truth.index", f"an index obtained from {producer} is used as a truth value ({cx}): index 0 is a valid "
+                    "position but counts as False, so the antipode that sits in row 0 is never recorded", where, src(node)[:160],
+                    witness=f"`{name}` may be 0")
     # sibling uses of which_row_is_k elsewhere (corroboration; instances counted)
     wk = repo.func("molgri.space.utils", "which_row_is_k")
     ctx.check(returns_index_array(repo, wk), "TRUTH", f"{tag}.truth.producer", "which_row_is_k returns an index array (np.nonzero(...)[0])",
